@@ -5,7 +5,9 @@ import (
 	"go/constant"
 	"go/token"
 	"go/types"
+	"os"
 	"strings"
+	"sync"
 
 	"golang.org/x/tools/go/ssa"
 )
@@ -20,6 +22,8 @@ type targetPanic struct {
 	fn   string // function containing the site
 	pos  string // file:line
 }
+
+var debugImplied = os.Getenv("VERIF_DEBUG_IMPLIED") != ""
 
 type pathAbort struct{ why string } // "infeasible", "violation" or "cut: ..."/"unknown: ..."
 
@@ -50,10 +54,49 @@ type Violation struct {
 
 type frame struct {
 	fn     *ssa.Function
-	env    map[ssa.Value]Val
+	info   *fnInfo
+	env    []Val
 	prev   *ssa.BasicBlock
 	defers []func()
 }
+
+// fnInfo numbers the values of a function so that frames are slices.
+type fnInfo struct {
+	idx map[ssa.Value]int
+	n   int
+}
+
+var fnInfoCache sync.Map
+
+func infoFor(fn *ssa.Function) *fnInfo {
+	if v, ok := fnInfoCache.Load(fn); ok {
+		return v.(*fnInfo)
+	}
+	fi := &fnInfo{idx: map[ssa.Value]int{}}
+	add := func(v ssa.Value) {
+		if _, ok := fi.idx[v]; !ok {
+			fi.idx[v] = fi.n
+			fi.n++
+		}
+	}
+	for _, p := range fn.Params {
+		add(p)
+	}
+	for _, fv := range fn.FreeVars {
+		add(fv)
+	}
+	for _, b := range fn.Blocks {
+		for _, in := range b.Instrs {
+			if v, ok := in.(ssa.Value); ok {
+				add(v)
+			}
+		}
+	}
+	v, _ := fnInfoCache.LoadOrStore(fn, fi)
+	return v.(*fnInfo)
+}
+
+func (fr *frame) set(v ssa.Value, x Val) { fr.env[fr.info.idx[v]] = x }
 
 type Machine struct {
 	eng *Engine
@@ -69,14 +112,16 @@ type Machine struct {
 	alts      [][]int64
 
 	pcSet   map[*Term]bool
+	pcList  []*Term
+	uf      map[*Term]*Term
 	nAssume int
-	skip    int
 
 	inputs  []nondetRec
 	nvars   int
 	steps   int
 	globals map[*ssa.Global]*Val
 	inited  map[*ssa.Package]bool
+	initing map[*ssa.Package]bool
 
 	fs     *FS
 	sched  *Sched
@@ -91,7 +136,11 @@ type Machine struct {
 	curFn    []*ssa.Function
 	notes    []string
 
+	models    []*modelT
+	cacheHits int
+
 	mainProc    int
+	ifPos       token.Pos
 	callPos     token.Pos
 	rndCnt      uint32
 	clock       int64
@@ -136,11 +185,61 @@ func (m *Machine) assume(c *Term) {
 	}
 	m.pcSet[c] = true
 	m.nAssume++
-	if m.nAssume <= m.skip {
-		return // still in the solver from the previous path on this worker
+	if len(m.models) > 0 {
+		m.filterModels(c)
 	}
-	m.sol.Push()
-	m.sol.Assert(c)
+	// path condition as a list; variables sharing a literal are merged into
+	// one independence class (union-find)
+	m.pcList = append(m.pcList, c)
+	vs := varsOf(c)
+	for i := 1; i < len(vs); i++ {
+		m.union(vs[0], vs[i])
+	}
+}
+
+func (m *Machine) find(v *Term) *Term {
+	for {
+		p, ok := m.uf[v]
+		if !ok || p == v {
+			return v
+		}
+		if gp, ok := m.uf[p]; ok && gp != p {
+			m.uf[v] = gp
+		}
+		v = p
+	}
+}
+
+func (m *Machine) union(a, b *Term) {
+	ra, rb := m.find(a), m.find(b)
+	if ra != rb {
+		m.uf[ra] = rb
+	}
+}
+
+// slice returns the literals of the path condition that (transitively) share
+// variables with the extra literals: constraints over independent variables
+// cannot affect the answer.
+func (m *Machine) pcSlice(extra []*Term, about ...*Term) (lits []*Term, groups map[*Term]bool) {
+	groups = map[*Term]bool{}
+	for _, e := range about {
+		for _, v := range varsOf(e) {
+			groups[m.find(v)] = true
+		}
+	}
+	// the extras may connect classes that the path condition keeps apart
+	for _, e := range extra {
+		for _, v := range varsOf(e) {
+			groups[m.find(v)] = true
+		}
+	}
+	for _, l := range m.pcList {
+		vs := varsOf(l)
+		if len(vs) == 0 || groups[m.find(vs[0])] {
+			lits = append(lits, l)
+		}
+	}
+	return
 }
 
 func (m *Machine) recordDecision(v int64) {
@@ -162,10 +261,7 @@ func (m *Machine) addAlt(v int64) {
 }
 
 func (m *Machine) check(extra ...*Term) string {
-	r := m.sol.Check(extra...)
-	if r == "unknown" {
-		panic(pathAbort{"unknown: solver answered unknown (" + m.sol.lastErr + ")"})
-	}
+	r, _, _ := m.query(extra)
 	return r
 }
 
@@ -189,14 +285,23 @@ func (m *Machine) branch(c *Term) bool {
 		k = m.prefix[m.pos]
 	} else {
 		m.forks++
-		if m.check(c) != "sat" {
+		if !m.feasible(c) {
 			k = 3 // path condition is satisfiable, so the other side is
-		} else if m.check(nc) == "sat" {
+		} else if m.feasible(nc) {
 			m.addAlt(1)
 			k = 0
 		} else {
 			k = 2
 		}
+	}
+	if debugImplied && !m.replaying() {
+		key := fmt.Sprintf("k=%d %s", k, m.posStr(m.ifPos))
+		if n := len(m.curFn); n > 0 {
+			key += " " + m.curFn[n-1].Name()
+		}
+		m.h.mu.Lock()
+		m.h.notes[key]++
+		m.h.mu.Unlock()
 	}
 	m.recordDecision(k)
 	switch k {
@@ -245,32 +350,24 @@ func (m *Machine) concretize(t *Term, what string) uint64 {
 		m.assume(m.ctx.Cmp(opEq, t, m.ctx.BV(t.w, v)))
 		return v
 	}
-	name := m.sol.ref(t)
 	var vals []uint64
-	base := m.sol.level
-	m.sol.Push()
+	var block []*Term
 	for {
-		r := m.sol.Check()
-		if r == "unknown" {
-			m.sol.PopTo(base)
-			panic(pathAbort{"unknown: solver unknown in concretize"})
-		}
+		r, mv, _ := m.query(block, t)
 		if r != "sat" {
 			break
 		}
-		v, ok := m.sol.Value(t)
+		md := &modelT{vals: mv, memo: map[*Term]uint64{}}
+		v, ok := md.eval(t)
 		if !ok {
-			m.sol.PopTo(base)
-			panic(pathAbort{"unknown: cannot read model value"})
+			panic(pathAbort{"unknown: cannot evaluate concretized term under the model"})
 		}
 		vals = append(vals, v)
 		if len(vals) > m.eng.maxConcretize {
-			m.sol.PopTo(base)
 			panic(pathAbort{"cut: concretize " + what + " >" + fmt.Sprint(m.eng.maxConcretize) + " values"})
 		}
-		m.sol.send(fmt.Sprintf("(assert (not (= %s (_ bv%d %d))))", name, v, t.w))
+		block = append(block, m.ctx.Not(m.ctx.Cmp(opEq, t, m.ctx.BV(t.w, v))))
 	}
-	m.sol.PopTo(base)
 	if len(vals) == 0 {
 		panic(pathAbort{"infeasible"})
 	}
@@ -414,6 +511,10 @@ func (m *Machine) initPackage(p *ssa.Package) {
 	path := p.Pkg.Path()
 	if p == m.eng.pkg || initWhitelist[path] {
 		if f := p.Func("init"); f != nil {
+			if m.initing == nil {
+				m.initing = map[*ssa.Package]bool{}
+			}
+			m.initing[p] = true
 			m.call(f, nil)
 		}
 		return
@@ -448,11 +549,11 @@ func (m *Machine) get(fr *frame, v ssa.Value) Val {
 	case *ssa.Global:
 		return m.global(x)
 	}
-	r, ok := fr.env[v]
+	k, ok := fr.info.idx[v]
 	if !ok {
 		unsupported("unbound value %s in %s", v.Name(), fr.fn)
 	}
-	return r
+	return fr.env[k]
 }
 
 func (m *Machine) call(fn *ssa.Function, args []Val) Val { return m.callWith(fn, args, nil) }
@@ -474,14 +575,10 @@ func (m *Machine) callWith(fn *ssa.Function, args []Val, bind []Val) Val {
 	if r, ok := m.intrinsic(fn, args); ok {
 		return r
 	}
-	if fn.Name() == "init" && fn.Synthetic == "package initializer" {
-		if fn.Pkg != nil && fn.Pkg != m.eng.pkg && !initWhitelist[fn.Pkg.Pkg.Path()] {
-			m.initPackage(fn.Pkg)
-			return nil
-		}
-		if fn.Pkg != nil {
-			m.inited[fn.Pkg] = true
-		}
+	if fn.Name() == "init" && fn.Synthetic == "package initializer" && fn.Pkg != nil && fn.Pkg != m.eng.pkg && !m.initing[fn.Pkg] {
+		// dependencies are initialised lazily, on the first access to one of
+		// their globals (see global / initPackage)
+		return nil
 	}
 	if fn.Blocks == nil {
 		unsupported("no body for %s", fn.String())
@@ -494,12 +591,17 @@ func (m *Machine) callWith(fn *ssa.Function, args []Val, bind []Val) Val {
 	}
 	m.curFn = append(m.curFn, fn)
 	defer func() { m.curFn = m.curFn[:len(m.curFn)-1] }()
-	fr := &frame{fn: fn, env: make(map[ssa.Value]Val, 16)}
+	fi := m.w.fnInfos[fn]
+	if fi == nil {
+		fi = infoFor(fn)
+		m.w.fnInfos[fn] = fi
+	}
+	fr := &frame{fn: fn, info: fi, env: make([]Val, fi.n)}
 	for i, p := range fn.Params {
-		fr.env[p] = args[i]
+		fr.set(p, args[i])
 	}
 	for i, fv := range fn.FreeVars {
-		fr.env[fv] = bind[i]
+		fr.set(fv, bind[i])
 	}
 	b := fn.Blocks[0]
 	for {
@@ -519,6 +621,7 @@ func (m *Machine) callWith(fn *ssa.Function, args []Val, bind []Val) Val {
 				if c.t == nil {
 					take = c.c != 0
 				} else {
+					m.ifPos = i.Cond.Pos()
 					take = m.branch(c.t)
 				}
 				if take {
@@ -578,7 +681,7 @@ func (m *Machine) callWith(fn *ssa.Function, args []Val, bind []Val) Val {
 			case *ssa.Go, *ssa.Send, *ssa.Select:
 				unsupported("concurrency instruction %T in %s", in, fn)
 			case ssa.Value:
-				fr.env[i] = m.eval(fr, i)
+				fr.set(i, m.eval(fr, i))
 			default:
 				unsupported("unsupported instr %T", in)
 			}
@@ -603,7 +706,7 @@ func (m *Machine) callWith(fn *ssa.Function, args []Val, bind []Val) Val {
 			}
 		}
 		for k, ph := range phis {
-			fr.env[ph] = phiVals[k]
+			fr.set(ph, phiVals[k])
 		}
 		fr.prev = b
 		b = next
